@@ -96,6 +96,31 @@ fn main() {
                 Err(e) => println!("err\t{}", format!("{e:#}").replace('\n', " ")),
             }
         }
+        "libseq" => {
+            // many grammars through the library in ONE process, in the given order: one line per grammar,
+            // "code <crc32 of the code>" or "error"; args: pairs <grammar.ebnf> <derives|->
+            let mut i = 2;
+            while i + 1 < args.len() {
+                let text = std::fs::read_to_string(&args[i]).expect("read grammar");
+                let mut settings = CodegenSettings::default();
+                if let Some(d) = derives(&args[i + 1]) {
+                    settings.derives = d;
+                }
+                let r = std::panic::catch_unwind(|| match Grammar::from_str(&text) {
+                    Err(_) => None,
+                    Ok(g) => g.generate_code(&settings).ok().map(|ts| ts.to_string()),
+                });
+                match r {
+                    Ok(Some(code)) => {
+                        let h = code.bytes().fold(0xcbf29ce484222325u64, |a, b| (a ^ b as u64).wrapping_mul(0x100000001b3));
+                        println!("code {:016x}", h)
+                    }
+                    Ok(None) => println!("error"),
+                    Err(_) => println!("panic"),
+                }
+                i += 2;
+            }
+        }
         "astparse" => {
             // the generated parser itself (PegParser::parse, what the command line tool and bootstrap.sh use), not the
             // FromStr wrapper around it: both are "the front end" and must read every text alike
